@@ -246,4 +246,49 @@ PROPS = {
         "rule": "k,m in 0..3 x all namings x suffix present/absent x criteria x forced rotations x 0..2 restarts; non-trivial = rotation or restart happened",
         "trusted": ["flate2 gzip round trip (checked by decompression)", "OS remove/create"],
     },
+    "C11": {
+        "level_text": "Kernel-checked on the instrumented model (FlwTrace, first projection = the model: trace_projection): in direct mode, at EVERY named point between two "
+                      "file-system effects of a write — initialisation, rename, symlink replacement, open, mount, write — the directory holds every acknowledged record and "
+                      "at most the in-flight one, in order; the call returns only after 'write.after' (crash_safe_rcurrent, crash_safe_direct, *_rotate); a new logger on ANY "
+                      "such crash directory (renamed-but-no-current, new empty current file, …; append on/off) continues the stream exactly (restart_from_crash_*). "
+                      "Validation: real child processes are ABORTED at every (point, occurrence) of a victim write and of a forced rotation (hook handler), the directory and "
+                      "symlink are compared with the model's crashDir, a new logger is started on it and the run continued and compared; the sequence of point names of "
+                      "an operation is compared with the model's trace.",
+        "level_note": "Theorems: no cleanup; crash points inside cleanup/compression (original next to unfinished/finished .gz) are covered by the kill runs + correspondence "
+                      "only (the model's crashDir includes them). Trusted: data handed to write(2) survives process death; rename is atomic; abort() at a hook point = kill "
+                      "at that point. Kills at arbitrary instants (between hook points inside one syscall) are not distinguishable from the adjacent points.",
+        "correspondence": "FlwTrace.crashDir/stepT vs child processes killed at hook points, then restart on the same directory",
+        "rule": "6 histories (quick) x {victim write, forced rotation} x 17 points x occurrences 0..2 (cleanup/compress points) x restart append on/off; direct mode, all namings, "
+                "cleanup never/(1,1)/random; non-trivial = all (each case kills or proves the point unreachable)",
+        "trusted": ["OS: written data survives process death; rename atomic", "hook points (add-only) mark the gaps between file-system effects"],
+        "shards": 8,
+    },
+    "C14": {
+        "level_text": "Kernel-checked on the string-level model of the listing code (after the repairs): a selected name has the fixed name part, the separating underscore and an "
+                      "infix accepted by the scheme's filter — the byte-offset arithmetic of the code is exactly this char-level statement, slicing inside a multi-byte "
+                      "character or a missing separator yields 'not selected', never a panic (accept_shape, accept_total, byte_offsets_are_char_offsets); with a well-formed "
+                      "remainder the name IS a family name (foreign_not_selected_partial, *_gz_*, *_nosuffix_*); the unguarded statement is proved FALSE (extra dots: known "
+                      "finding); every file the logger produces is selected, rCURRENT by no rotated-file filter (family_selected_*, current_not_rotated). The file writer "
+                      "touches only selected names (model by construction + differential check with near-miss foreign files present: bytes/names unchanged, family "
+                      "behaviour identical to the run without them).",
+        "level_note": "chrono's verdict on a timestamp infix is a parameter (tsOk) supplied by the harness. Two defects repaired (0f937be, 65723b0), one known finding (C14-extra-dots).",
+        "correspondence": "Names.existingLogFiles/acceptFile vs FileLogWriter::existing_log_files on directories with near-miss names; Flw model (which ignores foreign files) vs the real writer with foreign files present",
+        "rule": "near-miss generator (22 mutations of family names: longer/shorter basename, missing separator, other discriminant incl. infix-like, other suffix, trailing extension, "
+                "infix garbage, too few digits, multi-byte, impossible dates, restart markers without number, sub-directory) x namings x cleanup x restarts; non-trivial = rotation/restart or listing compared",
+        "trusted": ["chrono parse_from_str (tsOk)"],
+    },
+    "C16": {
+        "level_text": "Kernel-checked: render = non-empty parts joined by '_' + .suffix (+ .gz) with absent parts and separators omitted (name_pattern, explicit layouts); "
+                      "number infix = 'r' + >= 5 digits, injective; FileSpec::try_from round trip for EVERY file name incl. dot files, several dots, no extension, bare names "
+                      "(tryFrom_roundtrip_all); the structural order used by the writer proofs IS the order of the rendered names (numbers_order_key, stamps_order for all formats, "
+                      "restart siblings under RestartSafe — with witnesses for index >= 100000 and suffix 'txt'); existing_log_files = exactly the wanted family files "
+                      "(mem_existingLogFiles, existing_exact). Differential check: exact names (SNAP), symlink target after every observation, existing_log_files for all "
+                      "selectors incl. before the first write of a new logger, try_from paths with a writer built from them.",
+        "level_note": "Three defects repaired (763ea2b bare file name, c5fbd22 start time recomputed, bcb4371 listing before first write). The start-time part is pinned "
+                      "(suppress_timestamp) in the differential histories; custom timestamp formats: 3 formats.",
+        "correspondence": "Names.render/existingLogFiles/tryFromName + Flw model (names, symlink) vs the real writer and FileSpec",
+        "rule": "all name-part combinations incl. empty basename, dotted/underscore names, names containing '_r' x namings x selectors x histories with rotation, cleanup, compression, restarts; "
+                "10 try_from paths incl. sub-directories; non-trivial = all",
+        "trusted": ["std::path::Path::file_stem/extension (modelled as splitExt, validated)"],
+    },
 }
